@@ -31,6 +31,8 @@ pub struct Session {
     pub clock: u64,
     /// number of times the directory was littered (names of the leftovers)
     pub litter_no: u64,
+    /// further read points (the mark a concurrent writer has published)
+    pub extra_reads: Vec<u64>,
 }
 
 fn panic_msg(e: &Box<dyn std::any::Any + Send>) -> String {
@@ -83,6 +85,7 @@ impl Session {
             filter,
             clock: 0,
             litter_no: 0,
+            extra_reads: vec![],
         };
         s.open()?;
         Ok(s)
@@ -519,6 +522,7 @@ impl Session {
                 }
                 "reopen" => {
                     self.snaps.clear();
+                    self.extra_reads.clear();
                     self.tree = None;
                     if op["litter"].as_u64().unwrap_or(0) != 0 {
                         self.litter();
@@ -778,6 +782,7 @@ impl Session {
     fn read_points(&self) -> Vec<u64> {
         let mut v = vec![TOP, self.vis.get()];
         v.extend(self.snaps.iter().copied());
+        v.extend(self.extra_reads.iter().copied());
         v.sort_unstable();
         v.dedup();
         v
